@@ -39,7 +39,7 @@ def tables(cfg):
     RU = cfg.get("RU", 64 if name != "VHCT" else 16)
     rmax = cfg.get("rmax", 1.0)
     if name == "T_HOO":
-        return K.tb_consts("THOO", g("nu", 1), g("rho", 0.5), rounds=cfg["n"], RU=RU, maxcnt=cfg.get("T", cfg["n"]) + 8, rmax=rmax)
+        return K.tb_consts("THOO", g("nu", 1), g("rho", 0.5), rounds=cfg["n"], RU=RU, maxcnt=cfg.get("T", cfg["n"]) + 8, rmax=rmax, resolve=bool(cfg.get("resolve")))
     return K.tb_consts(SPEC_NAME[name], g("nu", 1), g("rho", 0.5), c=g("c", 0.1), delta=g("delta", 0.01), bound=g("bound", 1), RU=RU, maxcnt=cfg.get("T", cfg["n"]) + 8, rmax=rmax)
 
 
@@ -90,10 +90,15 @@ def _run(cfg):
     t0 = cfg.get("t0", 1)
     queries = set(cfg.get("queries", ()))
     script = cfg.get("rewards")  # explicit reward units (replay of a TLC behaviour)
+    midq = set(cfg.get("midq", ()))
     for i in range(T):
         pt = rec.pull(t0 + i)
         if rec.failed:
             break
+        if i in midq:
+            rec.glp()
+            if rec.failed:
+                break
         if script is not None:
             ru = script[i]
             r = ru / RU
